@@ -92,6 +92,26 @@ def putString (p : Pool) (s : JStr) : Option (Nat × Pool) :=
   | none => none
   | some (i, p') => put p' (.str i)
 
+/-- `put_name_and_type`: name, descriptor, then the pair -/
+def putNameAndType (p : Pool) (name desc : JStr) : Option (Nat × Pool) :=
+  match putUtf8 p name with
+  | none => none
+  | some (n, p) =>
+    match putUtf8 p desc with
+    | none => none
+    | some (d, p) => put p (.nameAndType n d)
+
+/-- `put_field_ref` / `put_method_ref` / `put_interface_method_ref`: class, name-and-type, then the reference
+(`kind` 9 = Fieldref, 10 = Methodref, 11 = InterfaceMethodref) -/
+def putRef (p : Pool) (kind : Nat) (cls name desc : JStr) : Option (Nat × Pool) :=
+  match putClass p cls with
+  | none => none
+  | some (c, p) =>
+    match putNameAndType p name desc with
+    | none => none
+    | some (nt, p) =>
+      put p (if kind = 9 then .fieldRef c nt else if kind = 10 then .methodRef c nt else .ifaceMethodRef c nt)
+
 /-! ## byte image (`PoolWrite::write`); strings restricted to code points 1..127 where MUTF-8 is the identity -/
 
 def be16 (n : Nat) : Bytes := [n / 256 % 256, n % 256]
